@@ -7,7 +7,8 @@ From Gen Require Import Gen_Sinks.
 
 (* T1.  For ALL operation sequences (in-channel telnet / ssh login, get_prompt, send_input, send_inputs_interact,
    privilege escalation with auth_secondary, repr, str of the driver; str, raise_for_status of any Response and repr
-   of a Response whose channel_input holds no hidden input), ALL histories (any chunking, any pattern answers, disconnects,
+   of a Response whose channel_input holds no hidden input; reassignment of a credential / a tunable; construction of a
+   driver through the factory for a core or a community platform with ANY configuration), ALL histories (any chunking, any pattern answers, disconnects,
    timeouts, blocking reads — failing paths included), the repaired and the unrepaired code alike: if the secrets do not
    occur in the non-secret inputs and the device does not print them, no log record, channel-log write, exception
    message, repr or str contains a secret atom. *)
